@@ -167,13 +167,16 @@ func (s *Server) handleRPC(stream *drpcstream.Stream, rpc string) (err error) {
 	if err != nil {
 		return errs.Wrap(stream.SendError(err))
 	}
-	err = stream.CloseSend()
 
 	// the handler has returned, so nothing will ever receive on this stream
-	// again. terminate it locally so that a message the client still sends is
-	// dropped instead of parking the connection's reader forever, which would
-	// stop the connection from ever serving another rpc.
-	stream.Cancel(context.Canceled)
+	// again. close its receive side locally so that a message the client still
+	// sends is dropped instead of parking the connection's reader forever,
+	// which would stop the connection from ever serving another rpc. this has
+	// to happen before the half-close is written: that write can only complete
+	// once the client reads, and a client that is itself still writing only
+	// gets to read once the reader here has drained what it sent.
+	stream.CloseRecv()
 
-	return errs.Wrap(err)
+	// with both sides closed the stream is terminated.
+	return errs.Wrap(stream.CloseSend())
 }
